@@ -108,6 +108,7 @@ pub mod verif {
     pub use super::credit::verif_hooks as credit;
     pub use super::listener::verif_hooks as listener;
     pub use super::msg::verif_hooks as msg;
+    pub use super::msg::{ExchangedCfg, MultiplexMsg};
     pub use super::mux::verif_hooks as mux;
     pub use super::port_allocator::verif_hooks as port_allocator;
     pub use super::receiver::verif_hooks as receiver;
